@@ -190,7 +190,7 @@ CLAIMED = {
             'the same data as bpch1.',
             'bpch layout of DESIGN Appendix A (sample reproduced byte for byte); scaled data to 1e-6 relative',
             'DESIGN.md section 4 C18'),
-    'C15': ('B', 'model_checking',
+    'C15': ('B-fork', 'model_checking',
             'exhaustive enumeration of open histories, each executed in a freshly forked pristine process, with every pool file probed after each history',
             'Pool of 24 files: every self-describing format (uamiv, lateral_boundary, ICARTT, netCDF3, netCDF4, '
             'IOAPI-netCDF, ARL, bpch) plus the indistinguishable vertical_diffusivity/humidity pair and an unrecognised '
@@ -250,10 +250,14 @@ def main():
              'serves_properties': [c['property_id'] for c in checks if c['engine'] == 'engine-B'],
              'kind_free_text': 'explicit-state breadth-first search over operation sequences; states are real '
                                'objects rebuilt by replaying histories, deduplicated on a canonical hash'},
+            {'name': 'engine-B-fork', 'path': 'mc/props/c15.py',
+             'serves_properties': ['C15'],
+             'kind_free_text': 'exhaustive enumeration of open histories over process-global state: every history '
+                               'runs in a child forked from a pristine parent, followed by probes of every pool file'},
             {'name': 'engine-C', 'path': 'mc/engine/sched.py',
-             'serves_properties': [c['property_id'] for c in checks if c['engine'] == 'engine-C'],
+             'serves_properties': ['C05'],
              'kind_free_text': 'exhaustive open/close/drop/gc event-schedule explorer on real netCDF handles'},
-            {'name': 'engine-D', 'path': 'mc/engine/cuts.py',
+            {'name': 'engine-D', 'path': 'mc/props/c14.py',
              'serves_properties': [c['property_id'] for c in checks if c['engine'] == 'engine-D'],
              'kind_free_text': 'every-byte-prefix (crash point) enumerator for generated binary files'},
         ],
